@@ -1,4 +1,6 @@
 pub mod ans;
+pub mod backend;
+pub mod bits;
 pub mod common;
 pub mod dynops;
 pub mod harness;
@@ -28,6 +30,8 @@ fn runs_for(prop: &str, thorough: bool) -> u64 {
         "C01" => (60_000, 1_500_000),
         "C02" => (60_000, 1_500_000),
         "C11" => (60_000, 1_500_000),
+        "C16" => (100_000, 3_000_000),
+        "C17" => (200_000, 6_000_000),
         "C04" => (60_000, 1_500_000),
         "C06" => (60_000, 1_500_000),
         "C07" => (40_000, 1_000_000),
